@@ -723,7 +723,11 @@ class Interp:
     def _inv_terms(self, spec, env, gen, j):
         if spec.invariant is None:
             return []
-        r = spec.invariant(View(env, gen, j))
+        try:
+            r = spec.invariant(View(env, gen, j))
+        except (NameError, AttributeError, KeyError) as e:
+            # the sidecar invariant speaks about a local / attribute the (rewritten) code no longer has: nothing can be decided with it
+            raise Unsupported(f"loop invariant of {env.qualname} refers to state the code does not have: {type(e).__name__} {e}")
         if r is None:
             return []
         if isinstance(r, (list, tuple)):
